@@ -395,9 +395,18 @@ class H:
         return self.body(body) if self.c.truthy(self.eval(test)) else NONE
 
     def f_fn(self, form, params, *body):
-        if not isinstance(params, List) or len(params):
-            raise Unsupported("hysem: fn with parameters")
+        if not isinstance(params, List):
+            raise Unsupported("hysem: fn with an annotated parameter list")
+        # creating the function evaluates the default value forms of its parameters, left to right (docs/api.rst: as in Python);
+        # a function with parameters can be passed around, but only parameterless ones are called by this interpreter
+        for prm in params:
+            if isinstance(prm, List) and len(prm) == 2:
+                self.eval(prm[1])
+            elif not isinstance(prm, Symbol):
+                raise Unsupported("hysem: fn parameter kind")
         k = self.c.occ(("fn",))
+        if len(params):
+            return ("hyclosure", k, ("with-parameters",), self.env)
         return ("hyclosure", k, tuple(body), self.env)
 
     def f_eval_and_compile(self, form, *body):
